@@ -185,6 +185,11 @@ def check(ctx):
     #     the proposed repair (skip empty volumes) satisfies the contract on the model
     c.tlc_must_pass(ctx, "seek-nonempty", "SeekChain.tla", "SeekChain_nonempty%s.cfg" % sfx, timeout=3000)
     c.tlc_must_pass(ctx, "seek-fixed-model", "SeekChain.tla", "SeekChain_fixed%s.cfg" % sfx, timeout=3000)
+    snap = c.tlc(os.path.join(c.SPEC, "SeekChain.tla"), os.path.join(c.SPEC, "mc", "SeekChain_snapshot.cfg"), ctx.path("tlc-seek-snapshot"),
+                 timeout=3000, keep_log=ctx.path("tlc-seek-snapshot.log"))
+    ctx.extra["snapshot_model_exhibits_empty_volume_finding"] = snap.violation == "Ok"
+    if snap.violation != "Ok":
+        raise c.ToolError("SeekChain with empty volumes and Fixed = FALSE was expected to violate Ok (model of the repaired finding); got %s" % snap.violation)
     # (b) empty volumes allowed: invariant OkOrKF (the known deviation is the only one) + scenario emission: one line per
     #     transition with predicted results
     res = c.tlc_must_pass(ctx, "seek-emit", "SeekChain.tla", "SeekChain_emit%s.cfg" % sfx, timeout=3000)
@@ -294,8 +299,8 @@ def check(ctx):
     need_x = ["member_absolute", "member_dotdot", "member_dir", "member_empty", "member_target_preexists", "multi_volume_archive",
               "extracted_something", "glob_all", "glob_ext", "glob_dirp", "glob_exact", "glob_nofilter"]
     missing = [k for k in need_s if not sinfo["paths"].get(k)] + [k for k in need_x if not xp.get(k)]
-    if sinfo["predicted_not_ok"] == 0:
-        missing.append("model: no empty-volume deviation reached")
+    # (the emission model is the repaired chain, Fixed = TRUE: it predicts no deviation; the pinned snapshot's model with empty
+    # volumes is SeekChain_snapshot.cfg, which must still exhibit the early end-of-file - see below)
     ctx.extra["paths_never_exercised"] = missing
     if missing and not ctx.violations:      # (with violations the code may be too broken to reach a path: the verdict stands)
         raise c.ToolError("vacuity: paths never exercised: %s" % missing)
